@@ -132,9 +132,11 @@ StartStage ==
   /\ UNCHANGED <<ci, si, offset, cs, have, rngp, param, tr, sr, interrupted, finals>>
 
 \* does the interrupt fire in chain c's iteration i (1-based, within stage si) at this site?
+\* intr.chain = 0 is a process-group interrupt (Ctrl-C): it fires in EVERY chain that reaches the point
 Fires(c, i, site) ==
-  /\ ~interrupted
-  /\ CF.intr.stage = si /\ CF.intr.chain = c /\ CF.intr.k = i /\ CF.intr.site = site
+  /\ CF.intr.stage = si /\ CF.intr.k = i /\ CF.intr.site = site
+  /\ \/ (CF.intr.chain = c /\ ~interrupted)
+     \/ CF.intr.chain = 0
 
 ActiveAd == ST.adapters     \* subset of Adapters active in the current stage
 
